@@ -96,6 +96,16 @@ ParseVcfTyped(text, decl) ==
       info |-> [k \in DOMAIN decl |-> InfoValue(cols[8], decl[k][1], decl[k][2])],
       gt   |-> [c \in 1..(Len(cols) - 9) |-> FirstSub(cols[9 + c])]]]
 
+\* genotype matrices of files whose genotypes are all phased and biallelic ('a|b', a, b in {0, 1}):
+\*   one code per sample, 2a + b (PhasedVCFMatrixBuffer), or the two alleles of each sample side by side (PhasedHaplotypeVCFMatrixBuffer)
+PhasedCode(g) == 2 * (g[1] - 48) + (g[3] - 48)
+PhasedText(c) == <<48 + (c \div 2), 124, 48 + (c % 2)>>
+ParseVcfPhased(text) ==
+  LET rows == ParseVcfTyped(text, <<>>) IN
+  [i \in DOMAIN rows |-> [base |-> rows[i].base, gt |-> rows[i].gt,
+                          phased |-> [c \in DOMAIN rows[i].gt |-> PhasedCode(rows[i].gt[c])],
+                          haplo |-> [k \in 1..(2 * Len(rows[i].gt)) |-> rows[i].gt[(k + 1) \div 2][IF k % 2 = 1 THEN 1 ELSE 3] - 48]]]
+
 Parse(fmt, text) == CASE fmt = "fasta" -> ParseFasta(text)
                       [] fmt = "fastq" -> ParseFastq(text)
                       [] OTHER -> ParseDelimited(fmt, text)
